@@ -47,6 +47,7 @@ fn dispatch(line: &str) -> String {
     }
     match parts[0] {
         "prefix" => do_prefix(&parts[1..]),
+        "tconv" => do_tconv(&parts[1..]),
         _ => gen_dispatch(&parts),
     }
 }
